@@ -152,7 +152,16 @@ func parseJSONFeature(keys *parseKeys, opts *ParseOptions) (Object, error) {
 	if err := parseBBoxAndExtras(&g.extra, keys, opts); err != nil {
 		return nil, err
 	}
-	if point, ok := g.base.(*Point); ok {
+	var center geometry.Point
+	var isPoint bool
+	switch point := g.base.(type) {
+	case *Point:
+		center, isPoint = point.base, true
+	case *SimplePoint:
+		// AllowSimplePoints only changes the representation of the point
+		center, isPoint = point.Point, true
+	}
+	if isPoint {
 		if g.extra != nil {
 			members := g.extra.members
 			if !opts.DisableCircleType &&
@@ -167,7 +176,7 @@ func parseJSONFeature(keys *parseKeys, opts *ParseOptions) (Object, error) {
 				default:
 					return nil, errCircleRadiusUnitsInvalid
 				}
-				return NewCircle(point.base, radius, 64), nil
+				return NewCircle(center, radius, 64), nil
 			}
 		}
 	}
